@@ -584,6 +584,38 @@ class SimEvent:
         return sim.wait_until(lambda: self._flag, timeout, "event.wait")
 
 
+def adopt_module_sync(module):
+    """Synchronisation objects a module created at import time (module
+    globals, class attributes) are real ones: a baton thread blocking on a
+    real lock that another baton thread holds would stop the whole
+    simulation.  Replace every such object by its simulated counterpart
+    (they are idle in the pristine worker a run is forked from).  Returns
+    the names replaced."""
+    import threading as _th
+    real_lock = type(_th.Lock())
+    real_rlock = type(_th.RLock())
+    done = []
+
+    def swap(holder, name, obj, setter):
+        if isinstance(obj, real_lock):
+            setter(SimLock())
+        elif isinstance(obj, real_rlock):
+            setter(SimRLock())
+        elif isinstance(obj, _th.Event):
+            setter(SimEvent())
+        else:
+            return
+        done.append("%s.%s" % (holder, name))
+    for name, obj in list(vars(module).items()):
+        swap(module.__name__, name, obj,
+             lambda v, name=name: setattr(module, name, v))
+        if isinstance(obj, type) and obj.__module__ == module.__name__:
+            for an, av in list(vars(obj).items()):
+                swap(obj.__name__, an, av,
+                     lambda v, obj=obj, an=an: setattr(obj, an, v))
+    return done
+
+
 class SimThread:
     """threading.Thread as a baton thread of the simulator."""
     _seq = [0]
